@@ -64,6 +64,7 @@ from pyint import Unsupported, mangle
 
 SRC = os.path.join('src', 'ansi_string', 'ansi_parsing.py')
 SRC_FORMAT = os.path.join('src', 'ansi_string', 'ansi_format.py')
+SRC_STRING = os.path.join('src', 'ansi_string', 'ansi_string.py')
 
 # ---------------------------------------------------------------------------------------------------
 # types
@@ -97,10 +98,12 @@ STR, INT, BOOL, CODE, NAT = Ty('Str'), Ty('Int'), Ty('Bool'), Ty('Code'), Ty('Na
 STXT, SOBJ, DICT, OPTPARAM, PARAM, CTRLFN = Ty('SettingTxt'), Ty('SettingObj'), Ty('Dict'), Ty('OptParam'), Ty('Param'), Ty('CtrlFn')
 CHAR, SELF = Ty('Char'), Ty('Self')          # Self: `self` inside a method of AnsiSetting (the text and the two cache attributes)
 CTLSEQ, SEQS, OPTSTR, PSELF = Ty('CtlSeq'), Ty('Seqs'), Ty('OptStr'), Ty('PSelf')   # PSelf: self in ParsedAnsiControlSequenceString
+OPTMATCH, MATCH, COMPDICT = Ty('OptMatch'), Ty('Match'), Ty('CompDict')      # re.search(...) / its match object; {prefix: component}
 LEAN_TY = {'Str': 'Str', 'Int': 'Int', 'Bool': 'Bool', 'Code': 'Code', 'Nat': 'Nat', 'SettingTxt': 'Str', 'SettingObj': 'Setting',
            'Dict': 'PyDict', 'OptParam': 'Option (Nat × Nat)', 'Param': 'Nat × Nat', 'CtrlFn': 'List Nat × Nat',
            'Char': 'Char', 'Self': 'PyParse.SObj', 'CtlSeq': 'CtlSeq', 'Seqs': 'List (Nat × List CtlSeq)', 'OptStr': 'Option Str',
-           'PSelf': 'Parsed', 'Item': 'Int × List CtlSeq'}
+           'PSelf': 'Parsed', 'Item': 'Int × List CtlSeq', 'OptMatch': 'Option Re.Caps', 'Match': 'Re.Caps',
+           'CompDict': 'List (Str × Nat)'}
 SCALAR = ('Int', 'Str', 'Code')
 MUTABLE = ('List', 'Dict')
 
@@ -113,6 +116,9 @@ def lean_ty(t, paren=False):
     t = t.r()
     if t.kind == 'Var':
         return '⟪T%d⟫' % t.id
+    if t.kind == 'Opt':
+        s = 'Option ' + lean_ty(t.elem, True)
+        return '(%s)' % s if paren else s
     if t.kind == 'List':
         s = 'List ' + lean_ty(t.elem, True)
         return '(%s)' % s if paren else s
@@ -132,7 +138,7 @@ def unify(a, b, what=''):
         return
     if a.kind != b.kind:
         raise Unsupported('type %r against %r %s' % (a, b, what))
-    if a.kind == 'List':
+    if a.kind in ('List', 'Opt'):
         unify(a.elem, b.elem, what)
 
 
@@ -143,7 +149,7 @@ def same(a, b):
         return True
     if a.kind == 'Var' or b.kind == 'Var' or a.kind != b.kind:
         return False
-    return same(a.elem, b.elem) if a.kind == 'List' else True
+    return same(a.elem, b.elem) if a.kind in ('List', 'Opt') else True
 
 
 def annotation(a):
@@ -182,6 +188,11 @@ GLOBALS = {
     'AnsiParamEffectFn.APPLY_SETTING': ('ansi_param', 'Gen.fnApply', NAT),
     'AnsiParamEffectFn.CLEAR_SETTING': ('ansi_param', 'Gen.fnClear', NAT),
     'AnsiParamEffectFn.RESET_ALL': ('ansi_param', 'Gen.fnResetAll', NAT),
+    # the components as the model numbers them (Scrub.component)
+    'ColorComponentType.FOREGROUND': ('ansi_format', '(0 : Nat)', NAT),
+    'ColorComponentType.BACKGROUND': ('ansi_format', '(1 : Nat)', NAT),
+    'ColorComponentType.UNDERLINE': ('ansi_format', '(2 : Nat)', NAT),
+    'ColorComponentType.DOUBLE_UNDERLINE': ('ansi_format', '(3 : Nat)', NAT),
 }
 ITERABLE_GLOBALS = {'_AnsiControlFn': ('ansi_format', 'Gen.ctrlFns', CTRLFN)}
 CLASSES = {'AnsiSetting': 'ansi_format', 'AnsiParam': 'ansi_param', 'AnsiControlSequence': 'ansi_parsing'}
@@ -202,7 +213,7 @@ SELF_INFO = {'Self': dict(lean='PyParse.SObj', fields=SELF_FIELDS, methods=SELF_
              'PSelf': dict(lean='Parsed', fields={'_s': ('text', STR, False), 'sequences': ('seqs', SEQS, False)}, methods={})}
 # parameters whose annotation does not say what they are (`allow_empty_terminator:str=True`, `…:str=None`)
 PARAM_TYPES = {('ParsedAnsiControlSequenceString', '__init__'): [('s', STR), ('allow_empty_terminator', BOOL), ('acceptable_terminators', OPTSTR)]}
-NARROWED = {'OptParam': PARAM, 'OptStr': STR}
+NARROWED = {'OptParam': PARAM, 'OptStr': STR, 'OptMatch': MATCH}
 
 
 def lean_str(s):
@@ -241,6 +252,14 @@ class Fn:
         self.njoin = 0
         self.nmark = 0
         self.deps = set()                          # generated modules of translated methods that are called
+        # the `re.search(<literal>, …)` calls in source order: the k-th is Gen.regex_<function>_k (harness/pyre.py)
+        sites = sorted((n.lineno, n.col_offset) for n in ast.walk(fn) if self.re_site(n))
+        self.re_sites = {pos: k for k, pos in enumerate(sites, 1)}
+
+    @staticmethod
+    def re_site(n):
+        return isinstance(n, ast.Call) and isinstance(n.func, ast.Attribute) and isinstance(n.func.value, ast.Name) \
+            and n.func.value.id == 're' and n.func.attr in ('search', 'match', 'fullmatch')
 
     def tmp(self):
         self.ntmp += 1
@@ -354,6 +373,24 @@ class Fn:
             return binds, '[%s]' % ', '.join(xs), List_(elem)
         if isinstance(e, ast.Dict) and not e.keys:
             return [], '([] : PyDict)', DICT
+        if isinstance(e, ast.Dict) and all(isinstance(k, ast.Constant) and isinstance(k.value, str) for k in e.keys):
+            items = []          # {'<prefix>': ColorComponentType.X, …}
+            for k, v in zip(e.keys, e.values):
+                b, x, t = self.ex(v, env)
+                if b or t.r().kind != 'Nat':
+                    raise Unsupported(ast.unparse(e))
+                items.append('(%s, %s)' % (lean_str(k.value), x))
+            if len(set(k.value for k in e.keys)) != len(e.keys):
+                raise Unsupported('a dictionary display with a key twice')
+            return [], '[%s]' % ', '.join(items), COMPDICT
+        if isinstance(e, ast.IfExp):
+            bt, c = self.truth(e.test, env)
+            b1, x1, t1 = self.ex(e.body, env)
+            b2, x2, t2 = self.ex(e.orelse, env)
+            if b1 or b2:
+                raise Unsupported('something that can raise inside a conditional expression: ' + ast.unparse(e))
+            unify(t1, t2, 'in ' + ast.unparse(e))
+            return bt, '(if %s then %s else %s)' % (c, x1, x2), t1
         if isinstance(e, ast.ListComp):
             if len(e.generators) != 1 or e.generators[0].ifs or e.generators[0].is_async or not isinstance(e.generators[0].target, ast.Name):
                 raise Unsupported(ast.unparse(e))
@@ -483,8 +520,12 @@ class Fn:
             return b, '(!(%s).isEmpty)' % x
         if k == 'Code':
             return b, '(PyParse.truthy %s)' % x
-        if k == 'OptParam':
+        if k in ('OptParam', 'OptMatch'):
             return b, '(%s).isSome' % x
+        if k == 'OptStr':
+            return b, '(PyParse.truthyOptStr %s)' % x
+        if k == 'Match':
+            return b, 'true'
         raise Unsupported('truth value of %r: %s' % (t, ast.unparse(e)))
 
     def compare(self, e, env):
@@ -533,9 +574,43 @@ class Fn:
         return e.args[0], e.args[1].id
 
     def call(self, e, env):
+        f = e.func
+        d = self.dotted(f) if isinstance(f, ast.Attribute) else None
+        if d in ('AnsiFormat.rgb', 'AnsiFormat.color256') and 'AnsiFormat' not in env and 'AnsiFormat' not in self.locals:
+            # the colour builders (not translated: the model's `colorSettings`), by their signatures
+            self.need_import('AnsiFormat', 'ansi_format')
+            names = {'AnsiFormat.rgb': ['r_or_rgb', 'g', 'b', 'component'], 'AnsiFormat.color256': ['val', 'component']}[d]
+            if any(isinstance(a, ast.Starred) for a in e.args) or len(e.args) > len(names) or any(k.arg not in names[len(e.args):] for k in e.keywords) \
+                    or len(set(k.arg for k in e.keywords)) != len(e.keywords):
+                raise Unsupported(ast.unparse(e))
+            given = dict(zip(names, e.args))
+            given.update({k.arg: k.value for k in e.keywords})
+            binds, vals = [], {}
+            for n in names:             # positional first, then keywords, each in the order written: all pure here
+                if n in given:
+                    b, x, t = self.ex(given[n], env)
+                    if b or t.r().kind != ('Nat' if n == 'component' else 'Int'):
+                        raise Unsupported(ast.unparse(e))
+                    vals[n] = x
+            comp = vals.get('component', '(0 : Nat)')
+            n = self.tmp()
+            if d == 'AnsiFormat.color256' and 'val' in vals:
+                return [('bind', 'PyParse.formatColor256 %s %s' % (vals['val'], comp), n)], n, List_(STXT)
+            if d == 'AnsiFormat.rgb' and 'r_or_rgb' in vals and 'g' in vals and 'b' in vals:
+                return [], '(PyParse.formatRgb3 %s %s %s %s)' % (vals['r_or_rgb'], vals['g'], vals['b'], comp), List_(STXT)
+            if d == 'AnsiFormat.rgb' and 'r_or_rgb' in vals and 'g' not in vals and 'b' not in vals:
+                return [('bind', 'PyParse.formatRgb1 %s %s' % (vals['r_or_rgb'], comp), n)], n, List_(STXT)
+            raise Unsupported(ast.unparse(e))
         if e.keywords or any(isinstance(a, ast.Starred) for a in e.args):
             raise Unsupported(ast.unparse(e))
-        f = e.func
+        if self.re_site(e) and 're' not in env and 're' not in self.locals:
+            if self.imports.get('re') != 're' or f.attr != 'search' or len(e.args) != 2 or not (isinstance(e.args[0], ast.Constant) and isinstance(e.args[0].value, str)):
+                raise Unsupported(ast.unparse(e)[:80])
+            b, x, t = self.ex(e.args[1], env)
+            if t.r().kind != 'Str':
+                raise Unsupported(ast.unparse(e)[:80])
+            self.deps.add('!Regexes')
+            return b, '(Re.matchStart Gen.regex_%s_%d %s)' % (self.fn.name.lstrip('_'), self.re_sites[(e.lineno, e.col_offset)], x), OPTMATCH
         if isinstance(f, ast.Name) and f.id not in env and f.id not in self.locals:
             if f.id == 'len' and len(e.args) == 1:
                 b, x, t = self.ex(e.args[0], env)
@@ -558,6 +633,18 @@ class Fn:
                 if k in ('Int', 'Str', 'List', 'Dict', 'SettingTxt', 'SettingObj', 'Nat'):
                     return b, 'true' if k == {'int': 'Int', 'str': 'Str'}[si[1]] else 'false', BOOL
                 raise Unsupported(ast.unparse(e))
+            if f.id == 'int' and len(e.args) == 2:
+                # int(<digits>, base): base 10 or 16 on plain hexadecimal digits, as the patterns capture them
+                b1, x1, t1 = self.ex(e.args[0], env)
+                b2, x2, t2 = self.ex(e.args[1], env)
+                if t1.r().kind == 'Str':
+                    x1 = '(some %s)' % x1
+                elif t1.r().kind != 'OptStr':
+                    raise Unsupported(ast.unparse(e))
+                if t2.r().kind != 'Int':
+                    raise Unsupported(ast.unparse(e))
+                n1, n2 = self.tmp(), self.tmp()
+                return b1 + b2 + [('bind', 'PyParse.intBase %s %s' % (x1, x2), n1), ('opt', n1, n2)], n2, INT
             if f.id == 'int' and len(e.args) == 1:
                 b, x, t = self.ex(e.args[0], env)
                 if t.r().kind == 'Int':
@@ -616,6 +703,12 @@ class Fn:
             args = [self.ex(a, env) for a in e.args]
             for a in args:
                 b = b + a[0]
+            if f.attr == 'group' and k == 'Match' and len(e.args) == 1 and isinstance(e.args[0], ast.Constant) \
+                    and isinstance(e.args[0].value, int) and not isinstance(e.args[0].value, bool) and e.args[0].value >= 1:
+                return b, '(Re.group %s %d)' % (x, e.args[0].value), OPTSTR       # None when the group took no part
+            if f.attr == 'get' and k == 'CompDict' and len(args) == 2 and args[0][2].r().kind in ('Str', 'OptStr') and args[1][2].r().kind == 'Nat':
+                key = args[0][1] if args[0][2].r().kind == 'OptStr' else '(some %s)' % args[0][1]
+                return b, '(PyParse.dictGetD %s %s %s)' % (x, key, args[1][1]), NAT
             if f.attr == 'strip' and k == 'Str' and not args:
                 return b, '(Py.strip %s)' % x, STR
             if f.attr == 'split' and k == 'Str' and len(args) == 1 and args[0][2].r().kind == 'Str':
@@ -880,16 +973,24 @@ class Fn:
             if isinstance(s.value, ast.Constant) and s.value.value is None:
                 if not self.ret_optional:
                     raise Unsupported('return None')
-                b, x, t = [], '(none : Option (Nat × Nat))', OPTPARAM
+                if self.ret_param:
+                    b, x, t = [], '(none : Option (Nat × Nat))', OPTPARAM
+                else:
+                    t = Ty('Opt', Ty('Var'))
+                    b, x = [], '(none : %s)' % lean_ty(self.ret)
+                    unify(self.ret, t, 'returned')
+                    t = self.ret
             else:
                 b, x, t = self.ex(s.value, env)
                 if self.ret_optional and t.r().kind == 'Param':
                     x, t = '(some %s)' % x, OPTPARAM
+                elif self.ret_optional and not self.ret_param and t.r().kind != 'Opt':
+                    x, t = '(some %s)' % x, Ty('Opt', t)
             unify(self.ret, t, 'returned')
             return self.wrap(b, ctx.ret(x), ctx)
         if isinstance(s, ast.Raise):
             e = s.exc
-            if isinstance(e, ast.Call) and not e.args and not e.keywords:
+            if isinstance(e, ast.Call) and not e.keywords:       # the message is not modelled
                 e = e.func
             if s.cause is not None or not (isinstance(e, ast.Name) and e.id == 'ValueError' and 'ValueError' not in self.locals):
                 raise Unsupported(ast.unparse(s))
@@ -1007,6 +1108,8 @@ class Fn:
                 taken = a if kind == {'int': 'Int', 'str': 'Str'}[cls] else b
                 return self.block(list(taken) + list(rest), env, k, ctx)
         nt = self.none_test(test, env)
+        if nt is None and isinstance(test, ast.Name) and test.id in env and env[test.id].r().kind == 'OptMatch':
+            nt = (test.id, False)           # `if match:` — a match object is true
         if nt is not None:
             name, is_none = nt
             if neg:
@@ -1245,6 +1348,8 @@ class Fn:
         is_init = fn.name == '__init__' and bool(self_kind)
         self.ret_optional = any(isinstance(n, ast.Return) and isinstance(n.value, ast.Constant) and n.value.value is None
                                 for n in ast.walk(fn))
+        self.ret_param = any(isinstance(n, ast.Return) and isinstance(n.value, ast.Call) and isinstance(n.value.func, ast.Name)
+                             and n.value.func.id == 'AnsiParam' for n in ast.walk(fn))
         for n in self.locals:
             if re.fullmatch(r'(t|k|h)\d+_|st_|ret_|r_|it_|fuel_', n):
                 raise Unsupported('a local named like a generated name: ' + n)
@@ -1313,6 +1418,7 @@ PRIMS = '''/-  GENERATED by harness/translate.py (harness/pyparse.py) — do not
     nothing here is read from the source.  Where Python can raise, the primitive returns `Except Exc`. -/
 import AnsiModel.Obj
 import AnsiModel.Parse
+import AnsiModel.Scrub
 import AnsiModel.Generated.Tables
 
 namespace PyParse
@@ -1414,6 +1520,43 @@ def seqsSet (d : List (Nat × List CtlSeq)) (k : Int) (l : List CtlSeq) : Except
 /-- `d.items()` -/
 def seqsItems (d : List (Nat × List CtlSeq)) : List (Int × List CtlSeq) := d.map (fun kv => ((kv.1 : Int), kv.2))
 
+/-- truth value of `match.group(n)`: `None` (the group took no part) or a `str` -/
+def truthyOptStr : Option Str → Bool
+  | none => false
+  | some s => !s.isEmpty
+
+/-- `int(digits, base)` where `digits` is `match.group(n)`: TypeError on `None`; modelled for base 10 and 16 on a
+    non-empty string of plain hexadecimal digits (what the patterns of `_parse_rgb_string` capture) — signs,
+    underscores, white space, a `0x` prefix are outside; `.ok none` = ValueError -/
+def intBase (digits : Option Str) (base : Int) : Except Exc (Option Int) :=
+  match digits with
+  | none => .error (.py .typeError)
+  | some d =>
+    if d.isEmpty || !d.all Scrub.isHex then .error .outside
+    else if base == 16 then .ok (some (Scrub.hexVal d : Int))
+    else if base == 10 then .ok (if d.all Py.isDigit then some (Py.digitsVal d : Int) else none)
+    else .error .outside
+
+/-- `{prefix: component}.get(key, default)` where `key` is `match.group(n)` (`None` is no key of it) -/
+def dictGetD (d : List (Str × Nat)) (key : Option Str) (dflt : Nat) : Nat :=
+  match key with
+  | none => dflt
+  | some k => ((d.find? (fun kv => kv.1 == k)).map (·.2)).getD dflt
+
+/-- `AnsiFormat.rgb(r, g, b, component)`: each value clamped to 0..255 (the builder itself is not translated:
+    the model's `Scrub.colorSettings`) -/
+def formatRgb3 (r g b : Int) (comp : Nat) : List Str :=
+  Scrub.colorSettings comp true [(min 255 (max 0 r)).toNat, (min 255 (max 0 g)).toNat, (min 255 (max 0 b)).toNat]
+
+/-- `AnsiFormat.rgb(rgb, component=…)`: the three bytes of a non-negative `rgb` -/
+def formatRgb1 (v : Int) (comp : Nat) : Except Exc (List Str) :=
+  if v < 0 then .error .outside
+  else .ok (Scrub.colorSettings comp true [(v.toNat / 65536) % 256, (v.toNat / 256) % 256, v.toNat % 256])
+
+/-- `AnsiFormat.color256(val, component=…)` for a non-negative `val` -/
+def formatColor256 (v : Int) (comp : Nat) : Except Exc (List Str) :=
+  if v < 0 then .error .outside else .ok (Scrub.colorSettings comp false [v.toNat])
+
 /-- `del d[k]`; KeyError when absent -/
 def dictDel (d : PyDict) (k : Nat) : Except Exc PyDict := if d.contains k then .ok (d.erase k) else .error .key
 
@@ -1424,8 +1567,12 @@ end PyParse
 FUNCS = [('settings_to_dict', None, 'SettingsToDict'), ('parse_graphic_sequence', None, 'ParseGraphicSequence')]
 METHODS = [('valid', 'AnsiSetting', 'SettingValid'), ('to_list', 'AnsiSetting', 'SettingToList'),
            ('parsable', 'AnsiSetting', 'SettingParsable'), ('get_initial_param', 'AnsiSetting', 'SettingInitialParam')]
+STRING_METHODS = [('_scrub_ansi_format_int', '_AnsiSettingPoint', 'ScrubFormatInt'), ('_parse_rgb_string', '_AnsiSettingPoint', 'ParseRgbString')]
 PARSING_METHODS = [('__init__', 'ParsedAnsiControlSequenceString', 'Tokenize'), ('formatted_str', 'ParsedAnsiControlSequenceString', 'FormattedStr')]
 CLASS_KIND = {'AnsiSetting': SELF, 'ParsedAnsiControlSequenceString': PSELF}
+# static methods: (class, method) -> Lean name
+STATIC_METHODS = {('_AnsiSettingPoint', '_scrub_ansi_format_int'): 'scrubFormatIntCode',
+                  ('_AnsiSettingPoint', '_parse_rgb_string'): 'parseRgbStringCode'}
 # (class, method) -> (Lean name, is a property)
 CLASS_METHODS = {('AnsiSetting', n): (v[0], v[4]) for n, v in SELF_METHODS.items()}
 CLASS_METHODS.update({('ParsedAnsiControlSequenceString', '__init__'): ('tokenizeInit', False),
@@ -1440,10 +1587,13 @@ EXPECTED = {
     'settingInitialParam': ('(self : PyParse.SObj)', '(Option (Nat × Nat))'),
     'tokenizeInit': ('(fuel_ : Nat) (s : Str) (allow_empty_terminator : Bool) (acceptable_terminators : Option Str)', 'Parsed'),
     'formattedStr': ('(self : Parsed)', 'Str'),
+    'scrubFormatIntCode': ('(ansi_format : Int)', 'Int'),
+    'parseRgbStringCode': ('(s : Str)', '(Option (List Str))'),
 }
 VARIANTS = {'settings_to_dict': ['settingsToDictCode'], 'parse_graphic_sequence': ['parseGraphicSequenceStr', 'parseGraphicSequenceList'],
             'valid': ['settingValid'], 'to_list': ['settingToList'], 'parsable': ['settingParsable'],
-            'get_initial_param': ['settingInitialParam'], '__init__': ['tokenizeInit'], 'formatted_str': ['formattedStr']}
+            'get_initial_param': ['settingInitialParam'], '__init__': ['tokenizeInit'], 'formatted_str': ['formattedStr'],
+            '_scrub_ansi_format_int': ['scrubFormatIntCode'], '_parse_rgb_string': ['parseRgbStringCode']}
 
 
 def camel(name):
@@ -1458,6 +1608,10 @@ def module_imports(tree, modname):
         if isinstance(st, ast.ImportFrom) and st.level == 1 and st.module:
             for a in st.names:
                 imp[a.asname or a.name] = st.module
+        if isinstance(st, ast.Import):
+            for a in st.names:
+                if a.name == 're':
+                    imp[a.asname or 're'] = 're'
     for st in tree.body:
         names = []
         if isinstance(st, (ast.FunctionDef, ast.ClassDef)):
@@ -1495,12 +1649,25 @@ def translate_function(tree, pyname, modname, cls=None):
             raise Unsupported('%d definitions of %s' % (len(fns), pyname))
         fn = fns[0]
         for d in fn.decorator_list:
-            if not (cls is not None and isinstance(d, ast.Name) and d.id == 'property'):
+            if not (cls is not None and isinstance(d, ast.Name) and d.id in ('property', 'staticmethod')):
                 raise Unsupported('decorated')
-        is_property = bool(fn.decorator_list)
+        is_static = any(d.id == 'staticmethod' for d in fn.decorator_list)
+        is_property = bool(fn.decorator_list) and not is_static
         imports = module_imports(tree, modname)
         variants = []
-        if cls is not None:
+        if cls is not None and (cls, pyname) in STATIC_METHODS:
+            if not is_static:
+                raise Unsupported('not a static method')
+            params = []
+            for a in fn.args.args:
+                if a.annotation is None:
+                    raise Unsupported('parameter %s without annotation' % a.arg)
+                al = annotation(a.annotation)
+                if len(al) != 1:
+                    raise Unsupported('parameter %s of union type' % a.arg)
+                params.append((a.arg, al[0]))
+            variants.append((STATIC_METHODS[(cls, pyname)], params, '`%s.%s`, statement by statement' % (cls, pyname)))
+        elif cls is not None:
             lean_name, prop = CLASS_METHODS[(cls, pyname)]
             names = [a.arg for a in fn.args.args]
             params = [('self', CLASS_KIND[cls])]
@@ -1563,27 +1730,31 @@ def header(what):
             'import AnsiModel.Generated.Tables', 'import AnsiModel.Generated.Methods.ParsePrims']
 
 
-def generate(repo, src=None, src_format=None):
-    """relative file name -> Lean source.  `src` / `src_format`: paths of the Python files to read instead of
-    ansi_parsing.py / ansi_format.py of the repository"""
+def generate(repo, src=None, src_format=None, src_string=None):
+    """relative file name -> Lean source.  `src` / `src_format` / `src_string`: paths of the Python files to read
+    instead of ansi_parsing.py / ansi_format.py / ansi_string.py of the repository"""
     files = {'Methods/ParsePrims.lean': PRIMS}
     for path, modname, items, what in ((src or os.path.join(repo, SRC), 'ansi_parsing', FUNCS, 'One function of ansi_parsing.py'),
                                        (src or os.path.join(repo, SRC), 'ansi_parsing', PARSING_METHODS,
                                         'One method of ParsedAnsiControlSequenceString (ansi_parsing.py)'),
-                                       (src_format or os.path.join(repo, SRC_FORMAT), 'ansi_format', METHODS, 'One method of AnsiSetting (ansi_format.py)')):
+                                       (src_format or os.path.join(repo, SRC_FORMAT), 'ansi_format', METHODS, 'One method of AnsiSetting (ansi_format.py)'),
+                                       (src_string or os.path.join(repo, SRC_STRING), 'ansi_string', STRING_METHODS,
+                                        'One static method of _AnsiSettingPoint (ansi_string.py)')):
         try:
             tree = ast.parse(open(path).read())
         except Exception as e:                                       # noqa
             tree = ast.parse('')
         for pyname, cls, mod in items:
             parts, deps = translate_function(tree, pyname, modname, cls)
-            L = header(what) + ['import AnsiModel.Generated.Methods.%s' % d for d in sorted(deps) if d != mod]
+            L = header(what) + (['import AnsiModel.Generated.Regexes'] if '!Regexes' in deps else []) + \
+                ['import AnsiModel.Generated.Methods.%s' % d for d in sorted(deps) if d != mod and not d.startswith('!')]
             L += ['', 'set_option linter.unusedVariables false', '', 'namespace Gen', ''] + [t for _, t in parts] + ['end Gen', '']
             files['Methods/%s.lean' % mod] = '\n'.join(L)
     return files
 
 
-MODULES = ['ParsePrims'] + [m for _, _, m in FUNCS] + [m for _, _, m in METHODS] + [m for _, _, m in PARSING_METHODS]
+MODULES = ['ParsePrims'] + [m for _, _, m in FUNCS] + [m for _, _, m in METHODS] + [m for _, _, m in PARSING_METHODS] + \
+    [m for _, _, m in STRING_METHODS]
 
 
 if __name__ == '__main__':
@@ -1593,9 +1764,10 @@ if __name__ == '__main__':
     ap.add_argument('--repo', default='/repo')
     ap.add_argument('--src', default=None, help='translate this copy of ansi_parsing.py instead')
     ap.add_argument('--src-format', default=None, help='translate this copy of ansi_format.py instead')
+    ap.add_argument('--src-string', default=None, help='translate this copy of ansi_string.py instead')
     ap.add_argument('--out', default=None, help='write the files under this directory (default: print)')
     a = ap.parse_args()
-    fs = generate(a.repo, a.src, a.src_format)
+    fs = generate(a.repo, a.src, a.src_format, a.src_string)
     for name, text in fs.items():
         if a.out:
             p = os.path.join(a.out, name)
